@@ -872,8 +872,16 @@ class Exec(object):
         if spec is None:
             # concrete unrolling (bounded by engine.max_unroll)
             n = 0
+            nsym = 0
             while True:
-                if not self.cond(self.eval(node.test)):
+                tv = self.truth(self.eval(node.test))
+                if not isinstance(tv, bool):
+                    # a loop without an invariant whose test is symbolic: every turn forks the path.  A few turns are
+                    # explored (bounded loops over small symbolic counters), then the function is undecided
+                    nsym += 1
+                    if nsym > 12:
+                        raise Unsupported("while loop at line %d has a symbolic test and no invariant" % node.lineno)
+                if not (tv if isinstance(tv, bool) else self.ctx.branch(tv) if not self.frame.spec else tv):
                     self.exec_block(node.orelse)
                     return
                 try:
